@@ -11,8 +11,10 @@ cd /verif
 export VERIF_EVIDENCE_DIR="$WT/.verif-evidence" VERIF_REPLAYS_DIR="$WT/.verif-replays"   # a seeded run must not overwrite the real evidence
 rc=0
 for id in "$@"; do
-  PYTHONPATH="$WT/src" ./check "$id" ${TIER:+--tier $TIER} > "/var/tmp/try_$id.out" 2>&1; r=$?
-  echo "== $id exit=$r"; grep -E "^VIOLATION|KNOWN-FINDING|MACHINERY| ok tier| FAIL tier|^  violations" "/var/tmp/try_$id.out" | cut -c1-260 | head -8
+  OUTF="$WT/.try_$id.out"
+  PYTHONPATH="$WT/src" ./check "$id" ${TIER:+--tier $TIER} > "$OUTF" 2>&1; r=$?
+  cp "$OUTF" "/var/tmp/try_$id.out" 2>/dev/null
+  echo "== $id exit=$r"; grep -E "^VIOLATION|MACHINERY| ok tier| FAIL tier|^  violations" "$OUTF" | cut -c1-260 | head -12
   [ $r -ne 0 ] && rc=$r
 done
 exit $rc
